@@ -257,6 +257,9 @@ func (x *Exec) callByContract(st *State, fn *ssa.Function, con *Contract, args [
 	if con.Trusted {
 		x.trusted["trusted contract (body not verified): "+con.Key] = true
 	}
+	if con.NoFrame && x.ghost == 0 {
+		return nil, fmt.Errorf("UNSUPPORTED call by contract to %s: its contract has no frame (noframe)", con.Key)
+	}
 	// implicit: pointer receiver is non-nil
 	if fn.Signature.Recv() != nil && !con.Nilable {
 		if _, ok := fn.Signature.Recv().Type().Underlying().(*types.Pointer); ok && len(args) > 0 {
@@ -1147,6 +1150,24 @@ func init() {
 	externals["(*strings.Builder).WriteRune"] = hFreshResults
 	externals["(*strings.Builder).WriteByte"] = hFreshResults
 	externals["(*strings.Builder).String"] = hFreshResults
+	// slices.BinarySearch(s, target) (i, found): what holds of its result whether or not s is
+	// sorted (the implementation returns found only after comparing s[i] with target):
+	// 0 <= i <= len(s), and found implies i < len(s) && s[i] == target.  Element types of one
+	// component (integers) only.
+	externals["slices.BinarySearch"] = func(x *Exec, st *State, fn *ssa.Function, args []*Val, pos token.Pos) ([]*Val, error) {
+		tb := x.tb
+		s, target := args[0], args[1]
+		sl, ok := s.T.Underlying().(*types.Slice)
+		if !ok || len(target.C) != 1 {
+			return nil, fmt.Errorf("UNSUPPORTED slices.BinarySearch instance %s", fn)
+		}
+		i := x.fresh(types.Typ[types.Int], "bsearch_i")
+		found := x.fresh(types.Typ[types.Bool], "bsearch_found")
+		x.assumeIn(st, tb.And(tb.Cmp("bvsle", tb.BV(64, 0), i.C[0]), tb.Cmp("bvsle", i.C[0], s.C[2])))
+		el := x.load(st, &Addr{prefix: elemPrefix(sl.Elem()), keys: []*Term{s.C[0], tb.Add(s.C[1], i.C[0])}}, sl.Elem())
+		x.assumeIn(st, tb.Implies(found.C[0], tb.And(tb.Cmp("bvslt", i.C[0], s.C[2]), tb.Eq(el.C[0], target.C[0]))))
+		return []*Val{i, found}, nil
+	}
 	externals["errors.New"] = func(x *Exec, st *State, fn *ssa.Function, args []*Val, pos token.Pos) ([]*Val, error) {
 		r := x.alloc(st, "err")
 		return []*Val{{T: fn.Signature.Results().At(0).Type(), C: []*Term{x.tb.BV(32, x.w.namedTypeID("*errors.errorString")), r}}}, nil
